@@ -97,4 +97,4 @@ impl ZXMachine {
 
 #[cfg(kani)]
 #[path = "/verif/hooks/core/machine.rs"]
-mod verif_hooks;
+pub(crate) mod verif_hooks;
